@@ -877,3 +877,58 @@ def leaks(tier, seed):
 def fix_br_skips(q, t, a, b, skip):
     """instructions were inserted into thread t: programs with br are not used for regions"""
     return q
+
+
+def await_shapes():
+    out = []
+    A = out.append
+    for so, lo in itertools.product(["rlx", "rel", "sc"], ["rlx", "acq", "sc"]):
+        A(P(f"await-1w[{so},{lo}]", SJ(2) + JJ(2), [st("y", 1), st("x", 1, so)], [await_("x", lo), ld("y")]))
+    A(P("await-2w", SJ(2) + JJ(2), [st("y", 1), st("x", 1, "rel"), st("y", 2), st("x", 2, "rel")], [await_("x", "acq"), ld("y")]))
+    A(P("await-2w-rlx", SJ(2) + JJ(2), [st("y", 1), st("x", 1), st("y", 2), st("x", 2)], [await_("x", "rlx"), ld("y"), ld("x")]))
+    A(P("await-in-main", [spawn(2), await_("x", "acq"), ld("y"), join(2)], [st("y", 1), st("x", 1, "rel")]))
+    A(P("await-then-write", SJ(2) + JJ(2) + [ld("z")], [st("x", 1, "rel"), ld("z")], [await_("x", "acq"), st("z", 1)]))
+    A(P("await-before-ops", SJ(2) + JJ(2), [ld("y"), st("x", 1, "rel")], [await_("x", "acq"), st("y", 1)]))
+    A(P("await-between-ops", SJ(2) + JJ(2), [st("y", 1), st("x", 1, "rel"), ld("z", "acq")], [ld("y"), await_("x", "acq"), st("z", 1, "rel")]))
+    A(P("await-chain", SJ(3) + JJ(3), [st("x", 1, "rel")], [await_("x", "acq"), st("y", 1, "rel")], [await_("y", "acq"), ld("x")]))
+    A(P("await-pingpong", SJ(2) + JJ(2), [st("x", 1, "rel"), await_("y", "acq"), ld("x")], [await_("x", "acq"), st("y", 1, "rel")]))
+    A(P("await-rmw-writer", SJ(2) + JJ(2), [fadd("x", 10, "rel"), fadd("x", 20, "rel")], [await_("x", "acq"), ld("x")]))
+    A(P("await-3threads", SJ(3) + JJ(3), [st("y", 1), st("x", 1, "rel")], [st("y", 2)], [await_("x", "acq"), ld("y")]))
+    A(P("await-spin", SJ(2) + JJ(2), [st("y", 1), st("x", 1, "rel")], [I("await", "x", ord="acq", k="spin"), ld("y")]))
+    A(P("await-under-lock", SJ(2) + JJ(2), [st("x", 1, "rel")] + CS("m", ld("y")), CS("m", await_("x", "acq"), st("y", 1))))
+    return out
+
+
+def never_shapes():
+    out = []
+    A = out.append
+    A(P("never-nowriter", SJ(2) + JJ(2), [st("y", 1)], [await_("x", "acq")]))
+    A(P("never-zero-store", SJ(2) + JJ(2), [st("x", 0, "rel")], [await_("x", "acq")]))
+    A(P("never-main", [spawn(2), await_("x", "rlx"), join(2)], [ld("x")]))
+    return out
+
+
+def awaits(tier, seed):
+    rng = random.Random(seed * 7001 + 53)
+    progs = await_shapes()
+    for k in range(15 if tier == "quick" else 200):
+        # a writer thread with 2-4 ops establishing x, a waiter with the await among 1-2 other ops
+        locs = ["y", "z"]
+        w = []
+        nv = {"x": 1, "y": 1, "z": 1}
+        nst = rng.choice([1, 1, 2])
+        pos = sorted(rng.sample(range(4), nst))
+        for j in range(4):
+            if j in pos:
+                w.append(st("x", nv["x"], rng.choice(["rlx", "rel", "sc"])))
+                nv["x"] += 1
+            elif rng.random() < 0.6:
+                l = rng.choice(locs)
+                w.append(st(l, nv[l], rng.choice(["rlx", "rel"])))
+                nv[l] += 1
+        wt = [await_("x", rng.choice(["rlx", "acq", "sc"]))]
+        for _ in range(rng.choice([1, 2])):
+            wt.insert(rng.randint(0, len(wt)), ld(rng.choice(locs + ["x"]), rng.choice(["rlx", "acq"])))
+        p = P(f"rand{k}", SJ(2) + JJ(2), w, wt) if rng.random() < 0.7 else P(f"rand{k}", [spawn(2)] + wt + [join(2)], w)
+        progs.append(p)
+    return [normalize(p) for p in progs], [normalize(p) for p in never_shapes()]
